@@ -160,14 +160,20 @@ def reexports : List Tok → List Str
      | .id e, .p '*' :: .id f :: .str v :: _ => if e = cl!"export" && f = cl!"from" then [v] else []
      | _, _ => []) ++ reexports rest
 
-/-- split a token list into top-level statements: a statement ends at a `;` at bracket depth 0 or after a
-    `}` that returns to depth 0 -/
+/-- statements that end with their closing brace (no `;`): interface and function declarations -/
+def blockTerminated (stmtRev : List Tok) : Bool :=
+  match stmtRev.reverse with
+  | .id e :: .id k :: _ => e = cl!"export" && (k = cl!"interface" || k = cl!"async" || k = cl!"function")
+  | _ => false
+
+/-- split a token list into top-level statements: a statement ends at a `;` at bracket depth 0, or at the `}`
+    that returns to depth 0 for interface / function declarations -/
 def splitTop : List Tok → Nat → List Tok → List (List Tok)
   | [], _, cur => if cur.isEmpty then [] else [cur.reverse]
   | t :: rest, d, cur =>
     match t with
     | .p '{' | .p '(' | .p '[' => splitTop rest (d + 1) (t :: cur)
-    | .p '}' => if d = 1 then (t :: cur).reverse :: splitTop rest 0 [] else splitTop rest (d - 1) (t :: cur)
+    | .p '}' => if d = 1 && blockTerminated cur then (t :: cur).reverse :: splitTop rest 0 [] else splitTop rest (d - 1) (t :: cur)
     | .p ')' | .p ']' => splitTop rest (d - 1) (t :: cur)
     | .p ';' => if d = 0 then (if cur.isEmpty then splitTop rest 0 [] else (t :: cur).reverse :: splitTop rest 0 []) else splitTop rest d (t :: cur)
     | _ => splitTop rest d (t :: cur)
